@@ -25,11 +25,14 @@ const O_SET_ATTACK: u8 = 1; // a = bits of frames (f32 as f64)
 const O_SET_RELEASE: u8 = 2;
 const O_CLONE_SWAP: u8 = 3;
 
-static OPS: [OpSpec; 4] = [
+const O_INTO_PARTS: u8 = 4;
+
+static OPS: [OpSpec; 5] = [
     OpSpec { name: "frame", shrink: 0 },
     OpSpec { name: "set_attack_frames", shrink: 0 },
     OpSpec { name: "set_release_frames", shrink: 0 },
     OpSpec { name: "clone_swap", shrink: 0 },
+    OpSpec { name: "adaptor_into_parts_then_direct", shrink: 0 },
 ];
 
 const F_RECONFIGURE: usize = 0;
@@ -211,6 +214,14 @@ impl<F: EnvFrame> Adaptor<F> {
             Adaptor::Full(a) => a.set_release_frames(v),
             Adaptor::Pos(a) => a.set_release_frames(v),
             Adaptor::Rms(a) => a.set_release_frames(v),
+        }
+    }
+    /// take the adaptor apart: the detector carries on where the adaptor stood
+    fn into_detector(self) -> Sut<F> {
+        match self {
+            Adaptor::Full(a) => Sut::Full(a.into_parts().1),
+            Adaptor::Pos(a) => Sut::Pos(a.into_parts().1),
+            Adaptor::Rms(a) => Sut::Rms(a.into_parts().1),
         }
     }
 }
@@ -468,6 +479,7 @@ where
                 0 => Op::ka(O_SET_ATTACK, f2i(draw_time(r) as f64)),
                 1 => Op::ka(O_SET_RELEASE, f2i(draw_time(r) as f64)),
                 2 if !adaptor => Op::k(O_CLONE_SWAP),
+                2 if r.chance(1, 3) => Op::k(O_INTO_PARTS),
                 _ => {
                     // input shapes: rising, falling, constant stretches, alternating, silence, boundaries
                     if hold > 0 {
@@ -601,6 +613,16 @@ where
                 }
                 // the previous envelope is kept: only subsequent frames are affected (checked by the
                 // model continuing from the last observed envelope)
+            }
+            O_INTO_PARTS => {
+                let Some(a) = adapt.take() else {
+                    src.skip_last();
+                    obs.skipped();
+                    continue;
+                };
+                obs.tick(op.k);
+                obs.fault(F_SNAPSHOT);
+                direct = Some(a.into_detector());
             }
             O_CLONE_SWAP => {
                 let Some(d) = direct.as_ref() else {
